@@ -346,10 +346,19 @@ class Conic(Quadric):
         x = Point(c1 * a1 + c2 * a2, copy=False)
         y = Point(c1 * a1 - c2 * a2, copy=False)
 
-        conic = cls.from_points(a, b, c, d, x)
-        if np.all(np.isreal(conic.array)):
-            return conic
-        return cls.from_points(a, b, c, d, y)
+        conic1 = cls.from_points(a, b, c, d, x)
+        conic2 = cls.from_points(a, b, c, d, y)
+
+        def relative_det(conic: Conic) -> float:
+            scale = np.max(np.abs(conic.array))
+            return 0 if scale == 0 else np.abs(det(conic.array / scale))
+
+        # one of the two solutions can be degenerate, prefer the real solution only if it is not the degenerate one
+        if np.all(np.isreal(conic1.array)) and relative_det(conic1) > EQ_TOL_ABS:
+            return conic1
+        if relative_det(conic2) > EQ_TOL_ABS or relative_det(conic2) >= relative_det(conic1):
+            return conic2
+        return conic1
 
     @classmethod
     def from_foci(cls, f1: Point, f2: Point, bound: Point) -> Conic:
@@ -370,7 +379,7 @@ class Conic(Quadric):
         p1, p2 = Point(t1.array, copy=False), Point(t2.array, copy=False)
         p3, p4 = Point(t3.array, copy=False), Point(t4.array, copy=False)
         c = cls.from_tangent(Line(bound.array, copy=False), p1, p2, p3, p4)
-        return cls(np.linalg.inv(c.array), copy=False)
+        return cls(np.real_if_close(np.linalg.inv(c.array)), normalize_matrix=True)
 
     @classmethod
     def from_crossratio(cls, cr: float, a: Point, b: Point, c: Point, d: Point) -> Conic:
